@@ -193,7 +193,7 @@ theorem allowed_cases (tokens : List String) (h : (sqliteClassify tokens).allowe
 /-- a dot-command or a write among the arguments is never approved -/
 theorem write_arg_asks (tokens : List String) (p : String)
     (hh : tokens.any (fun t => Generated.Sql.sqliteHelp.contains t) = false)
-    (hr : (tokens.contains "-readonly" || tokens.contains "-safe") = false)
+    (hr : ((optionWords 0 (tokens.drop 1)).contains "-readonly" || (optionWords 0 (tokens.drop 1)).contains "-safe") = false)
     (hp : p ∈ sqlArgs false 0 (tokens.drop 1)) (hw : isReadonly p.toList [] Generated.Sql.sqliteWrite ≠ some true) :
     (sqliteClassify tokens).allowed = false := by
   cases ha : (sqliteClassify tokens).allowed with
@@ -211,6 +211,52 @@ theorem write_arg_asks (tokens : List String) (p : String)
           have := List.all_eq_true.mp hall (isReadonly p.toList [] Generated.Sql.sqliteWrite) (List.mem_map.mpr ⟨p, hp, rfl⟩)
           exact hw (by simpa using this)
         · split at ha <;> simp [SqliteVerdict.allowed] at ha
+
+/-- the value of a one-argument option is not an option word: `-separator -readonly` does not open the database
+    read-only -/
+theorem option_value_skipped (o v : String) (rest : List String) (ho : o ∈ Generated.Sql.sqliteOneArg) :
+    optionWords 0 (o :: v :: rest) = o :: optionWords 0 rest := by
+  have hall : Generated.Sql.sqliteOneArg.all (fun t => Py.startsWith t "-") = true := by decide +kernel
+  have hs := List.all_eq_true.mp hall o ho
+  simp [optionWords, hs, ho]
+
+/-- option words are words of the command line -/
+theorem optionWords_sub (k : Nat) (l : List String) : ∀ x ∈ optionWords k l, x ∈ l := by
+  induction l generalizing k with
+  | nil => simp [optionWords]
+  | cons t rest ih =>
+    intro x hx
+    cases k with
+    | succ k => simp only [optionWords] at hx; exact List.mem_cons_of_mem _ (ih _ x hx)
+    | zero =>
+      simp only [optionWords, List.mem_append] at hx
+      rcases hx with hx | hx
+      · split at hx
+        · simp only [List.mem_singleton] at hx; simp [hx]
+        · cases hx
+      · exact List.mem_cons_of_mem _ (ih _ x hx)
+
+/-- the read-only-mode shortcut needs `-readonly` or `-safe` in option position -/
+theorem readonly_mode_option (tokens : List String) (h : sqliteClassify tokens = .readonlyMode) :
+    "-readonly" ∈ optionWords 0 (tokens.drop 1) ∨ "-safe" ∈ optionWords 0 (tokens.drop 1) := by
+  unfold sqliteClassify at h
+  split at h
+  · cases h
+  · split at h
+    · rename_i hr
+      simpa using hr
+    · split at h
+      · cases h
+      · simp only at h
+        split at h
+        · cases h
+        · split at h
+          · cases h
+          · split at h <;> cases h
+
+example : sqliteClassify ["sqlite3", "-separator", "-readonly", "db", "DELETE FROM t"] = .writeQuery := by decide +kernel
+example : sqliteClassify ["sqlite3", "-readonly", "db", "DELETE FROM t"] = .readonlyMode := by decide +kernel
+example : sqliteClassify ["sqlite3", "-lookaside", "1", "-safe", "db", "DELETE FROM t"] = .writeQuery := by decide +kernel
 
 /-! ### T0 obligations -/
 
